@@ -74,19 +74,28 @@ func (E *Engine) havocKeys(st *State, ws *writeSet, resolve func(ssa.Value) (*Te
 		ks = append(ks, k)
 	}
 	sortStrings(ks)
+	// the clock first, so that the closedness of the new arrays refers to the new time
+	if _, ok := ws.keys[allocKey]; ok {
+		nw := tb.Fresh(allocKey, SInt)
+		E.addFact(st, tb.Cmp("<=", clockPre, nw))
+		tb.noSyms[nw] = true
+		st.heap[allocKey] = nw
+	}
+	clockPost := E.clock(st)
 	for _, k := range ks {
 		srt, ok := E.heapSorts[k]
 		if !ok {
+			continue
+		}
+		if k == allocKey {
 			continue
 		}
 		kw := ws.keys[k]
 		old := E.get(st, k, srt)
 		nw := tb.Fresh(k, srt)
 		st.heap[k] = nw
-		if k == allocKey {
-			E.addFact(st, tb.Cmp("<=", old, nw))
-			tb.noSyms[nw] = true
-			continue
+		if c := E.closed(nw, clockPost); c != nil {
+			E.addFact(st, c)
 		}
 		if kw.any || !srt.IsArray() {
 			continue
